@@ -94,6 +94,8 @@ fn jbool(v: &Value, k: &str, d: bool) -> bool {
 struct Names {
     tower_by_hex: HashMap<String, String>,
     loc_by_hex: HashMap<String, String>,
+    /// every tower listens on two addresses: port -> 1 (the one it is first registered through) | 2 (the other one)
+    addr_by_port: HashMap<u16, i64>,
 }
 
 impl Names {
@@ -102,6 +104,15 @@ impl Names {
             .get(hex)
             .cloned()
             .unwrap_or_else(|| format!("?{hex}"))
+    }
+    /// 1 | 2 for the addresses of the fake towers, 0 for anything else
+    fn addr(&self, net_addr: &str) -> i64 {
+        net_addr
+            .rsplit(':')
+            .next()
+            .and_then(|p| p.parse::<u16>().ok())
+            .and_then(|p| self.addr_by_port.get(&p).copied())
+            .unwrap_or(0)
     }
     fn loc(&self, hex: &str) -> String {
         self.loc_by_hex
@@ -161,7 +172,7 @@ fn no_nulls(v: &mut Value) {
 fn write_event(g: &mut TraceInner, t0: &Instant, mut ev: Value) -> u64 {
     no_nulls(&mut ev);
     // every event carries the fields the validator may look at
-    for (k, d) in [("t", json!("-")), ("l", json!("-")), ("id", json!(0)), ("m", json!("-")), ("res", json!("-"))] {
+    for (k, d) in [("t", json!("-")), ("l", json!("-")), ("id", json!(0)), ("m", json!("-")), ("res", json!("-")), ("port", json!(0))] {
         if ev.get(k).is_none() {
             ev[k] = d;
         }
@@ -238,6 +249,8 @@ struct Tower {
     other_sk: SecretKey,
     id: TowerId,
     port: u16,
+    /// second address of the same tower (registertower through another address)
+    alt_port: u16,
     st: Mutex<TowerState>,
     cv: Condvar,
 }
@@ -549,7 +562,7 @@ impl Tower {
         // the class of the answer is read off the bytes that are sent (unless the script insists)
         if beh.0.get("cls").is_none() {
             let uid = *sh.user_id.lock().unwrap();
-            let (c, slots, start, expiry) = if k == "reset" {
+            let (c, slots, start, expiry) = if k == "reset" || k == "nothttp" {
                 ("garbage".to_owned(), 0, 0, 0)
             } else {
                 classify_answer(ep, &bytes, &user_sig, uid, &self.id)
@@ -562,6 +575,12 @@ impl Tower {
         if k == "reset" {
             // the connection is closed without an answer
             sh.trace.emit(rep_ev);
+            drop(stream);
+        } else if k == "nothttp" {
+            // what answers is not HTTP at all (e.g. a TLS alert, another service on that port)
+            sh.trace.emit(rep_ev);
+            let _ = stream.write_all(b"\x15\x03\x01\x00\x02\x02\x28 this is not an HTTP response\r\n\r\n");
+            let _ = stream.flush();
             drop(stream);
         } else {
             sh.trace.emit(rep_ev);
@@ -736,7 +755,7 @@ fn garbage_answer(beh: &Beh) -> (u16, String, Vec<u8>) {
 }
 
 fn tower_acceptor(tw: Arc<Tower>, sh: Arc<Shared>) {
-    let mut listener: Option<TcpListener> = None;
+    let mut listener: Option<(TcpListener, TcpListener)> = None;
     let mut bind_failures = 0u32;
     loop {
         let (want_up, stop) = {
@@ -747,9 +766,12 @@ fn tower_acceptor(tw: Arc<Tower>, sh: Arc<Shared>) {
             break;
         }
         if want_up && listener.is_none() {
-            match TcpListener::bind(("127.0.0.1", tw.port)) {
+            match TcpListener::bind(("127.0.0.1", tw.port))
+                .and_then(|a| TcpListener::bind(("127.0.0.1", tw.alt_port)).map(|b| (a, b)))
+            {
                 Ok(l) => {
-                    l.set_nonblocking(true).unwrap();
+                    l.0.set_nonblocking(true).unwrap();
+                    l.1.set_nonblocking(true).unwrap();
                     listener = Some(l);
                     let mut st = tw.st.lock().unwrap();
                     st.bound = true;
@@ -774,7 +796,7 @@ fn tower_acceptor(tw: Arc<Tower>, sh: Arc<Shared>) {
             tw.cv.notify_all();
         }
         match &listener {
-            Some(l) => match l.accept() {
+            Some(l) => match l.0.accept().or_else(|_| l.1.accept()) {
                 Ok((stream, _)) => {
                     stream.set_nonblocking(false).ok();
                     stream.set_nodelay(true).ok();
@@ -1002,7 +1024,8 @@ fn read_db(sh: &Shared, path: &Path) -> Result<Value, String> {
             if let Ok(id) = TowerId::from_str(&t) {
                 tower_keys.insert(t.clone(), id);
             }
-            json!({"t": names.tower(&t), "slots": r.get::<_, i64>(2).unwrap_or(-1)})
+            json!({"t": names.tower(&t), "slots": r.get::<_, i64>(2).unwrap_or(-1),
+                   "addr": names.addr(&r.get::<_, String>(1).unwrap_or_default())})
         })?),
     );
     out.insert(
@@ -1134,6 +1157,7 @@ fn mem_snapshot(sh: &Shared, timeout: Duration) -> Value {
         };
         out.push(json!({
             "t": names.tower(tid),
+            "addr": names.addr(jstr(s, "net_addr")),
             "status": jstr(s, "status"),
             "slots": s.get("available_slots").and_then(|x| x.as_i64()).unwrap_or(-1),
             "start": s.get("subscription_start").and_then(|x| x.as_i64()).unwrap_or(-1),
@@ -1348,10 +1372,11 @@ impl Exec {
                     st.queue.entry("reg".into()).or_default().push_back(Beh(b.clone()));
                 }
                 let id_hex = tw.id.to_string();
+                let alt = jbool(step, "alt", false);
                 self.call_logged(
                     "registertower",
-                    json!([id_hex, "127.0.0.1", tw.port]),
-                    json!({"t": tw.name}),
+                    json!([id_hex, "127.0.0.1", if alt { tw.alt_port } else { tw.port }]),
+                    json!({"t": tw.name, "port": if alt { 2 } else { 1 }}),
                     ju64(step, "timeout_ms", 5000),
                 );
             }
@@ -1605,12 +1630,15 @@ fn run_scenario(scn: &Value, out_dir: &Path, bin: &Path, port0: u16) -> Value {
         let (osk, _) = key_from(&format!("{name}:{tn}:other"));
         let id = TowerId(pk);
         names.tower_by_hex.insert(id.to_string(), tn.clone());
+        names.addr_by_port.insert(port0 + i as u16, 1);
+        names.addr_by_port.insert(port0 + 4 + i as u16, 2);
         towers.push(Arc::new(Tower {
             name: tn.clone(),
             sk,
             other_sk: osk,
             id,
             port: port0 + i as u16,
+            alt_port: port0 + 4 + i as u16,
             st: Mutex::new(TowerState {
                 up: true,
                 bound: false,
